@@ -378,9 +378,10 @@ def nasa9_pipeline(run, repo, tables, max_seg):
     tab = tables['nasa9']
     cp_slots = sorted(tab['powers'])
     n = 0
-    for nseg in range(1, max_seg + 1):
+    for nseg, kind in itertools.product(range(1, max_seg + 1), ('generic', 'zero')):
+        tag = ' [all-zero Cp data]' if kind == 'zero' else ''
         for j in range(nseg):
-            I, o, _o, _f = fitted(repo, NASA + '.Nasa9', 'generic', nasa9_extra(nseg))
+            I, o, _o, _f = fitted(repo, NASA + '.Nasa9', kind, nasa9_extra(nseg))
             D = I.D
             tmid = ListV([D.sym('Tm%d' % k) for k in range(nseg - 1)])
             Tref, Href, Sref = D.sym('T_ref'), D.sym('HoRT_ref'), D.sym('SoR_ref')
@@ -388,7 +389,7 @@ def nasa9_pipeline(run, repo, tables, max_seg):
                 raise Unsupported('Nasa9.from_data did not build an object: %s' % show(o))
             segs = get_public(I, o, 'nasas')
             if not isinstance(segs, ListV) or len(segs) != nseg:
-                run.fail('DATAFLOW.segments', 'nasa.Nasa9.from_data', 'segments:%d' % nseg,
+                run.fail('DATAFLOW.segments', 'nasa.Nasa9.from_data', 'segments:%d' % nseg + tag,
                          'expected %d segment objects, got %s' % (nseg, show(segs)), owner.module, fn)
                 continue
             H = lambda a, T: evaluator(I, repo, 'nasa9', 'HoRT', a, T)
@@ -399,27 +400,30 @@ def nasa9_pipeline(run, repo, tables, max_seg):
                 bounds = [D.sym('MIN{(Tdata)}')] + list(tmid.items) + [D.sym('MAX{(Tdata)}')]
                 ok = all(same(s.attrs.get('T_low'), bounds[k]) and same(s.attrs.get('T_high'), bounds[k + 1])
                          for k, s in enumerate(segs.items))
-                run.check(ok, 'DATAFLOW.bounds', 'nasa.Nasa9.from_data', 'segments:%d' % nseg,
+                run.check(ok, 'DATAFLOW.bounds', 'nasa.Nasa9.from_data', 'segments:%d' % nseg + tag,
                           'segment k must span [T_k, T_k+1] of [min(T), *T_mid, max(T)]', owner.module, fn)
                 for k in range(nseg - 1):
                     tk = tmid.items[k]
                     run.check(same(H(A[k], tk), H(A[k + 1], tk)), 'CONT.H', 'nasa.Nasa9.from_data',
-                              'segments:%d break:%d' % (nseg, k), 'H is discontinuous at break temperature %d' % k,
+                              'segments:%d break:%d' % (nseg, k) + tag, 'H is discontinuous at break temperature %d' % k,
                               owner.module, fn, sample='Nasa9.from_data(%d segments): H continuous at T_mid[%d]'
                               % (nseg, k))
                     run.check(same(S(A[k], tk), S(A[k + 1], tk)), 'CONT.S', 'nasa.Nasa9.from_data',
-                              'segments:%d break:%d' % (nseg, k), 'S is discontinuous at break temperature %d' % k,
+                              'segments:%d break:%d' % (nseg, k) + tag, 'S is discontinuous at break temperature %d' % k,
                               owner.module, fn)
                     n += 2
                 run.check(all(only_fit_atoms(A[k], cp_slots) for k in range(nseg)), 'DATAFLOW.cp-slots',
-                          'nasa.Nasa9.from_data', 'segments:%d' % nseg,
+                          'nasa.Nasa9.from_data', 'segments:%d' % nseg + tag,
                           'a heat-capacity coefficient was modified while anchoring H and S', owner.module, fn)
                 n += 2
             # anchor: the segment containing T_ref must reproduce the reference values
-            key = 'T_ref in segment %d' % j if j else 'T_ref in segment 0'
+            key = ('T_ref in segment %d' % j if j else 'T_ref in segment 0') + (' of %d' % nseg + tag if tag else '')
             run.check(same(H(A[j], Tref), Href), 'ANCHOR.H', 'nasa.Nasa9.from_data', key,
-                      'with T_ref inside segment %d (of %d) H/RT(T_ref) = %s, not HoRT_ref: the anchor is applied to '
-                      'the first segment whatever segment T_ref lies in' % (j, nseg, show(H(A[j], Tref), 120)),
+                      'with T_ref inside segment %d (of %d) H/RT(T_ref) = %s, not HoRT_ref: %s'
+                      % (j, nseg, show(H(A[j], Tref), 120),
+                         'the zero coefficient rows of the segments are one shared array, anchoring one segment '
+                         'overwrites the others' if kind == 'zero' else
+                         'the anchor is applied to the first segment whatever segment T_ref lies in'),
                       owner.module, fn)
             run.check(same(S(A[j], Tref), Sref), 'ANCHOR.S', 'nasa.Nasa9.from_data', key,
                       'with T_ref inside segment %d (of %d) S/R(T_ref) is not SoR_ref' % (j, nseg),
@@ -625,6 +629,8 @@ def check(run, repo):
 N = 'pmutt/empirical/nasa.py'
 S_ = 'pmutt/empirical/shomate.py'
 MUTANTS = [
+    {'name': 'zero rows of the NASA-9 intervals are one shared array again', 'expect': ('ANCHOR', 'Nasa9.from_data'),
+     'edits': [(N, '        return [np.zeros(9) for _ in range(len(T_mid) + 1)]', '        return [np.zeros(9)] * (len(T_mid) + 1)')]},
     {'name': 'high coefficients taken from the last candidate instead of the best', 'expect': ('DATAFLOW.T_mid', 'from_data'),
      'edits': [(N, '    a_high_rev = all_a_high[min_i]', '    a_high_rev = all_a_high[-1]')]},
     {'name': 'constant Cp data short-circuited to zero', 'expect': ('REF.fit', 'from_data'),
